@@ -22,22 +22,27 @@ theorem big_endian_roundtrip (n : Nat) (v : Int) (hn : 0 < n) (hv : -(2 ^ (8 * n
   beSigned_beBytes n v hn hv
 
 /-- version 1: transitions, types (offset, DST flag, designation at the stated index), leap records
-    exactly as encoded, from the 32-bit block (sign-extended); no rule -/
+    exactly as encoded, from the 32-bit block (sign-extended); no rule.
+    `hn`: the zone's types are local time types the library can hold (C13: offset ≠ i32::MIN, name
+    3–7 characters of the alphabet) — without it the statement is false
+    (`Proofs.decode_encode_v1_false_without_names`, `…_without_offset`). -/
 theorem decode_encode_v1 (z : TimeZone) (l : Spec.Layout) (hl : Spec.LayoutOK z l) (hv : l.versionByte = 0)
-    (ht : Spec.TimesFit 32 z) :
+    (ht : Spec.TimesFit 32 z)
+    (hn : ∀ t ∈ z.localTimeTypes, ∃ t', LocalTimeType.new t.utOffset t.isDst t.name = .ok t') :
     parseTzFile (Spec.encodeV1 z l) = TimeZone.new z.transitions z.localTimeTypes z.leapSeconds none :=
-  Proofs.decode_encode_v1 z l hl hv ht
+  Proofs.decode_encode_v1 z l hl hv ht hn
 
 /-- versions 2 and 3: from the 64-bit block, IGNORING the 32-bit one; footer rule with extensions
     honoured only for version 3 -/
 theorem decode_encode_v2_v3 (v1 : Bytes) (z : TimeZone) (l : Spec.Layout) (footerText : Bytes)
     (h1 : Spec.V1BlockOK v1) (hl : Spec.LayoutOK z l) (hv : l.versionByte = 0 ∨ l.versionByte = 50 ∨ l.versionByte = 51)
-    (ht : Spec.TimesFit 64 z) :
+    (ht : Spec.TimesFit 64 z)
+    (hn : ∀ t ∈ z.localTimeTypes, ∃ t', LocalTimeType.new t.utOffset t.isDst t.name = .ok t') :
     parseTzFile (Spec.encodeV2 v1 z l footerText) =
       (match parseFooter ([10] ++ footerText ++ [10]) (l.versionByte == 51) with
        | .error e => .error e
        | .ok rule => TimeZone.new z.transitions z.localTimeTypes z.leapSeconds rule) :=
-  Proofs.decode_encode_v2 v1 z l footerText h1 hl hv ht
+  Proofs.decode_encode_v2 v1 z l footerText h1 hl hv ht hn
 
 /-! the named rejections -/
 
